@@ -127,6 +127,7 @@ pub fn run(scn: &MScn, oracles: &[Oracle], out: &mut Outcome, fp: &mut Fp, tr: &
     let mut max_depth = 0u64;
     let mut pops_at_zero = 0u64;
     let mut int_frames = 0u64;
+    let mut sig_frames = 0u64;
     let mut foreign = false;
 
     macro_rules! fail {
@@ -409,6 +410,9 @@ pub fn run(scn: &MScn, oracles: &[Oracle], out: &mut Outcome, fp: &mut Fp, tr: &
                                         fail!("frame-entry", format!("frame {i}: (caller x{:04X}, callee x{:04X}, kind {kind}), model (x{:04X}, x{:04X}, {})", f.caller_addr, f.callee_addr, g.caller, g.callee, g.kind));
                                     }
                                     if !g.args_dont_care {
+                                        if !g.args.is_empty() || g.fp.is_some() {
+                                            sig_frames += 1;
+                                        }
                                         let a: Vec<u16> = f.arguments.iter().map(|x| x.get()).collect();
                                         if a != g.args || f.frame_ptr.map(|x| x.get()) != g.fp {
                                             fail!("frame-args", format!("frame {i} (callee x{:04X}): args {:?} fp {:?}, model {:?} {:?}", g.callee, a, f.frame_ptr.map(|x| x.get()), g.args, g.fp));
@@ -609,6 +613,9 @@ pub fn run(scn: &MScn, oracles: &[Oracle], out: &mut Outcome, fp: &mut Fp, tr: &
         }
         if int_frames > 0 {
             out.bump("probe.interrupt-frame");
+        }
+        if sig_frames > 0 {
+            out.bump("probe.frame-with-signature-args");
         }
     }
     for k in kinds {
